@@ -42,19 +42,24 @@ SPEC = {
                  "C06_skeleton_store_iterate", "C06_skeleton_store_iterate_keys", "C06_skeleton_store_delete_prefix_clear",
                  "C06_skeleton_type_typedvalue", "C06_skeleton_type_typedstore", "C06_skeleton_type_rwmutex",
                  "C06_code_refines_model", "C06_code_coherent_failure_atomic", "C06_code_lock_discipline"],
-    "trusted_base": ["hand-written models Hive/Model/TypedValue.lean, TypedStore.lean, TypedConc.lean of kvstore/typedvalue.go and typedstore.go, "
-                     "tied by differential execution with fault injection (harness/c06)",
+    "trusted_base": ["TypedValue (sequential): translator harness/c06/xlate (go/ast -> statement language, ~500 lines) and the language's semantics "
+                     "Hive/Model/TypedCode.lean; the hand-written model Hive/Model/TypedValue.lean is PROVED equal to the translated method bodies "
+                     "(C06_code_refines_model); translator + semantics are cross-checked on every run by executing the translated term against the real code",
+                     "hand-written models Hive/Model/TypedStore.lean, TypedConc.lean, TypedRef.lean of kvstore/typedstore.go, the lock protocol and TypedValue[*T], "
+                     "tied by differential execution with fault injection (harness/c06), regenerated skeletons / type facts and the lock-discipline obligation",
                      "Go toolchain, compiled Lean driver, Go's sync.RWMutex semantics as written in Hive/Model/TypedConc.lean"],
-    "modelled": ["TypedValue Get/Has/Set/Delete/Compute over one raw key with both cache fields, per-call fault vector, call trace",
+    "modelled": ["regenerated: the bodies of TypedValue.Get/Has/Compute/Set/Delete/cachedValue as terms of a statement language (conditions, early returns, nil dereferences, "
+                 "which variable each call result lands in / each condition tests, error wrapping and ierrors.Is, store calls by position, store reporting its errors bare or wrapped)",
+                 "TypedValue Get/Has/Set/Delete/Compute over one raw key with both cache fields, per-call fault vector, call trace",
                  "reference-typed V (TypedValue[*T]): generic model at V := Ref with a heap-dependent codec (Hive/Model/TypedRef.lean); caller mutations change the heap only; cache coherence / transparency are claimed only while the caller has not mutated a cached object (aliasing assumption), last-written and failure atomicity always",
                  "TypedStore Get/Has/Set/Delete/Iterate/IterateKeys/DeletePrefix/Clear over a sorted association list",
                  "protocol: RLock fast path / Lock slow path with read, store-write and cache-update micro-steps; RLock without writer preference (more schedules)",
                  "uint64 wrap-around of the counter workload after 2^64 increments is NOT modelled (Nat)",
                  "a failing store call is assumed to have no effect on the store; partial writes of the underlying store are not modelled"],
     "manifest": {
-        "text": "Theorems over every history and every fault vector (which store call / codec call / compute function fails, including natural codec failures and ErrTypedValueNotChanged): cache always equals the store (C06_cache_coherent), no fault => results equal the raw key under the codec (C06_transparent), the stored bytes are the encoding of the last successful write (C06_stored_is_last_written), every failed call is reported with its own error and leaves store and cache unchanged (C06_failure_atomic); the same for TypedStore incl. iteration stopping at the first decode error (C06_store_*); protocol theorem over every schedule and thread count: write sections are mutually exclusive and the log of completed operations is a run of the sequential machine, hence no lost update and readers see only written values (C06_serialised*). Models are re-validated on every run by a line-by-line differential run against the real code behind a fault-injecting KVStore and failing codecs (result, call trace, raw bytes and both cache fields compared after every step), an independent in-Go property oracle, and a concurrent stress part decided by the Lean trace predicate.",
+        "text": "Theorems over every history and every fault vector (which store call / codec call / compute function fails, including natural codec failures and ErrTypedValueNotChanged): cache always equals the store (C06_cache_coherent), no fault => results equal the raw key under the codec (C06_transparent), the stored bytes are the encoding of the last successful write (C06_stored_is_last_written), every failed call is reported with its own error and leaves store and cache unchanged (C06_failure_atomic); the same for TypedStore incl. iteration stopping at the first decode error (C06_store_*); protocol theorem over every schedule and thread count: write sections are mutually exclusive and the log of completed operations is a run of the sequential machine, hence no lost update and readers see only written values (C06_serialised*). The TypedValue model is re-derived from the source on every run: the method bodies are translated to a statement language and proved equal to the model in every state (C06_code_refines_model), and their lock discipline is decided (C06_code_lock_discipline). Models are re-validated on every run by a line-by-line differential run against the real code behind a fault-injecting KVStore and failing codecs (result, call trace, raw bytes and both cache fields compared after every step), an independent in-Go property oracle, and a concurrent stress part decided by the Lean trace predicate.",
         "note": "Trusted: Lean kernel; the three hand-written models (tie = differential execution: every single-fault position per op kind x cache state x raw state enumerated, random histories, concurrent stress); sync.RWMutex semantics; failing store calls assumed effect-free.",
-        "technique": "Lean 4 invariant/refinement proofs over histories x fault vectors + interleaving-protocol invariant + differential correspondence with fault injection",
+        "technique": "Lean 4 invariant/refinement proofs over histories x fault vectors + model regenerated from the Go source by a translator and re-proved + interleaving-protocol invariant + differential correspondence with fault injection and forced schedules",
     },
     "assumptions": ["the TypedValue is the only writer of its key (the cache is never invalidated from outside)",
                     "codec round trip (dec (enc v) = v) for the theorems that say so",
